@@ -4,7 +4,9 @@
 //!   ippverif exec <PROP>          (case lines on stdin; effective line, result and oracle on stdout)
 mod exec;
 mod exec2;
+mod exec3;
 mod gen;
+mod gen2;
 mod malformed;
 mod props;
 mod registry;
